@@ -217,9 +217,10 @@ class BoxS(_Solid):
 
 class EllipsoidS(_Solid):
     """Ellipsoid with semi-axes a (the library's spheroid is an inscribed icosphere
-    polyhedron: `band` is the maximal gap between the two, relative to the largest axis)."""
+    polyhedron, trimesh icosphere with 1280 faces whose planes come within 0.99547 of the centre:
+    `band` covers that gap of 0.453%, relative to the largest axis)."""
 
-    def __init__(self, c, dims, R=None, rel_band=0.004):
+    def __init__(self, c, dims, R=None, rel_band=0.0048):
         self.c = np.asarray(c, float)
         self.a = np.asarray(dims, float) / 2
         self.R = np.eye(3) if R is None else np.asarray(R, float)
